@@ -391,6 +391,7 @@ def run(ctx):
         fam("U-F", max_deg=3)
     fam("U-X")
     fam("U-E")
+    fam("U-MF")         # 40 - 130 final states in ascending, descending, interleaved order and with a repeated entry
     # U-T3 (several finals) with the finals written in descending order and one repeated
     Un = sweep.universe("U-T3")
     stride = 8 if ctx.thorough else 160
@@ -400,7 +401,7 @@ def run(ctx):
     spaces.append({"universe": "U-T3", "size": Un.size, "fraction": "every %d-th structure" % stride, "finals": "descending order, one repeated"})
     tot = par.run_shards(work, shards, ctx.jobs)
     if not tot.get("violations") and (tot["nontrivial"] < 10 or tot["games"] < 100):
-        raise par.HarnessError("C10 vacuity guard")
+        raise par.GuardError("C10 vacuity guard")
     cov = {"states": tot["states"], "transitions": tot["transitions"], "traces_validated_against_impl": tot["transitions"],
            "evaluations": tot["games"], "distinct_nontrivial": tot["nontrivial"], "games": tot["games"],
            "games_whose_state_graph_closed": tot["closed"], "max_states_per_game": tot["max_states_per_game"],
